@@ -2,7 +2,7 @@
    Property theorems only; each is closed by [exact] of a lemma proved in proofs/. *)
 From SQ Require Import lib.Base gen.Gen_C06.
 From Coq Require String Ascii.
-From SQ Require model.HeaderProtection proofs.HeaderProtectionProofs model.Nonce proofs.NonceProofs model.RxPipeline proofs.RxPipelineProofs model.ResetMap.
+From SQ Require model.HeaderProtection proofs.HeaderProtectionProofs model.Nonce proofs.NonceProofs model.RxPipeline proofs.RxPipelineProofs model.ResetMap proofs.ResetMapProofs.
 Import HeaderProtection.
 Local Open Scope N_scope.
 
@@ -220,6 +220,16 @@ Example C06_rxpipe_example :
   RxPipeline.run c = [0; 10; 3; 1; 2; 3; 1; 1; 1; 1; 6; 5]%Z.
 Proof. vm_compute. reflexivity. Qed.
 
+(* reset map shared by several connections: whenever every mapping of the map was registered by the
+   peer for its connection ([sound], preserved by insert / remove / lookup: ResetMapProofs.sound_insert,
+   sound_remove_all, lookup_keeps_sound), a datagram is matched to connection i only if its last 16
+   bytes are a token registered for i.  (_partial: the induction over run_ops histories that
+   establishes [sound] for every reachable state is not assembled.) *)
+Theorem C06_resetmap_lookup_sound_partial : forall m regs d i, ResetMapProofs.sound m regs ->
+  fst (RxPipeline.on_stateless_reset m d) = Some i ->
+  exists t, RxPipeline.last16 d = Some t /\ In (i, t) regs.
+Proof. exact ResetMapProofs.lookup_sound. Qed.
+
 (* resetmap (real PeerIdRegistry + ConnectionIdMapper through the hook): the general statement
    "judge c (run c) = true" is NOT proved (time); one concrete history is checked here: a token announced by
    NEW_CONNECTION_ID matches only after its id is taken into use, matches once, a token registered by
@@ -254,3 +264,4 @@ Print Assumptions C06_reset_judge_model.
 Print Assumptions C06_rxpipe_judge_model.
 Print Assumptions C06_exec_instance_is_ideal.
 Print Assumptions C06_closed_only_at_limit.
+Print Assumptions C06_resetmap_lookup_sound_partial.
